@@ -121,7 +121,7 @@ func SpecTrieWord(t *Trie, w string) bool   { panic("abstract spec function") }
 //@   modifies nothing
 //@ func RedisKeyFilter.FilterCmdKey
 //@   arith int
-//@   properties C10
+//@   properties C10 C01
 //@   opaque SpecHashSlot
 //@   requires wf [C10]: filterWF(f)
 //@   modifies nothing
